@@ -148,6 +148,14 @@ func runEffects(fns []*ssa.Function, cfg effectConfig) []effectFinding {
 					checkEscape(&out, fn, in, x.Val, nil, cfg)
 					return
 				}
+				if fv := rawFreeVarRoot(x.Addr); fv != nil && fn.Parent() != nil && cfg.setupCaptured(fn) && !inOnce {
+					if _, direct := x.Addr.(*ssa.FreeVar); !direct {
+					// whatever its type, an object reached through a variable captured when the handler was
+					// constructed is shared by all requests
+						out = append(out, effectFinding{fn, in, "captured-write", "store into an object reached through " + fv.Name() + ", a variable captured when the handler was constructed (one object shared by all requests)"})
+						return
+					}
+				}
 				owner := ownerNamed(x.Addr)
 				if owner != nil {
 					switch cfg.classify(owner) {
@@ -281,6 +289,10 @@ func makeHandler() func() {
 	cache := map[string]int{}
 	return func() { cache["k"]++ }
 }
+func makeRenderer() func(n int) *perreq {
+	r := &perreq{}
+	return func(n int) *perreq { r.n = n; return r }
+}
 `
 
 // effectControls runs the engine on an in-memory fixture; every listed
@@ -323,7 +335,7 @@ func effectControls() (fired []string, err error) {
 	want := map[string]string{
 		"writeShared": "shared-store", "mapWriteShared": "shared-map-write", "deleteShared": "shared-map-write",
 		"appendShared": "append-hazard", "escape": "escape", "globalWrite": "global-write", "globalMapWrite": "global-write",
-		"makeHandler$1": "captured-write",
+		"makeHandler$1": "captured-write", "makeRenderer$1": "captured-write",
 	}
 	for fn, kind := range want {
 		ok := false
@@ -344,4 +356,30 @@ func effectControls() (fired []string, err error) {
 		fired = append(fired, "E5:"+fn+"→silent")
 	}
 	return fired, nil
+}
+
+// rawFreeVarRoot walks an address expression without seeing through variable
+// cells and returns the captured variable it is reached through, if any.
+func rawFreeVarRoot(a ssa.Value) *ssa.FreeVar {
+	cur := a
+	for i := 0; i < 32; i++ {
+		switch x := cur.(type) {
+		case *ssa.FreeVar:
+			return x
+		case *ssa.FieldAddr:
+			cur = x.X
+		case *ssa.IndexAddr:
+			cur = x.X
+		case *ssa.UnOp:
+			if x.Op != token.MUL {
+				return nil
+			}
+			cur = x.X
+		case *ssa.ChangeType:
+			cur = x.X
+		default:
+			return nil
+		}
+	}
+	return nil
 }
